@@ -136,17 +136,24 @@ class Sim(object):
     def fail(self, bucket, msg):
         self.ctx.fail(bucket, '%s\nhistory: %s' % (msg, self.trace[-25:]), case=dict(kind='history', libs=self.libs, pools=self.pools, trace=self.trace))
 
-    def load(self, li):
+    def load(self, li, assembled=False):
         from pgradd.GroupAdd.Library import GroupLibrary
         import pgradd.ThermoChem  # noqa: registers the thermochem property set
-        if len(self.objs) >= 6:
+        if len(self.objs) >= 8:
             return
         L = self.libs[li % len(self.libs)]
-        self.trace.append(['load', li % len(self.libs)])
+        self.trace.append(['assemble' if assembled else 'load', li % len(self.libs)])
         try:
-            self.objs.append([L, GroupLibrary.Load(L), [], False])
+            obj = GroupLibrary.Load(L)
+            if assembled:
+                # the same library put together through the constructor and Update(): an empty library object for the
+                # scheme, filled from a freshly loaded one
+                src, obj = obj, GroupLibrary(obj.scheme)
+                obj.Update(src)
+                self.ctx.event('op:assemble')
+            self.objs.append([L, obj, [], False])
         except Exception as e:
-            self.fail('load-raises:%s' % type(e).__name__, 'Load(%s) raised %s: %s' % (L, type(e).__name__, e))
+            self.fail('load-raises:%s' % type(e).__name__, '%s(%s) raised %s: %s' % ('constructor + Update' if assembled else 'Load', L, type(e).__name__, e))
 
     def decompose(self, oi, mi, alt=False):
         if not self.objs:
@@ -188,6 +195,10 @@ class Sim(object):
         if d is not None:
             self.decs.append((oi, smi, d))
             self.ctx.event('op:decompose')
+        # an estimate that exists already keeps meaning ITS molecule: look at the newest estimate of this object right away
+        mine = [k for k, e in enumerate(self.ests) if e[0] == oi and e[1] != smi]
+        if mine:
+            self.evaluate(mine[-1], 0, 3, True, record=False)
 
     def estimate(self, di):
         if not self.decs:
@@ -225,7 +236,7 @@ class Sim(object):
             if later_other:
                 self.nontrivial = True
 
-    def evaluate(self, ei, ti, xi, elemental):
+    def evaluate(self, ei, ti, xi, elemental, record=True):
         if not self.ests:
             return
         ei %= len(self.ests)
@@ -237,7 +248,8 @@ class Sim(object):
         X = ['HoRT', 'CpoR', 'SoR', 'GoRT'][xi % 4]
         el = bool(elemental) and X in ('SoR', 'GoRT')
         key = '%s/%s/%s' % (X, 'el' if el else 'abs', T)
-        self.trace.append(['evaluate', ei, ti % len(TS), xi % 4, el])
+        if record:
+            self.trace.append(['evaluate', ei, ti % len(TS), xi % 4, el])
         want = self.base[L]['mols'][smi]['values'][key]
         with warnings.catch_warnings():
             warnings.simplefilter('ignore')
@@ -345,6 +357,8 @@ class Sim(object):
         bi %= len(self.objs)
         if ai == bi or self.objs[ai][0] == self.objs[bi][0] or self.objs[bi][3] == 'mixed':
             return
+        if self.objs[ai][3] != 'mixed' and sum(1 for o in self.objs if o[3] == 'mixed') >= 2:
+            return                      # keep most objects comparable with the fresh-process table
         self.trace.append(['cross_merge', ai, bi])
         try:
             self.objs[ai][1].Update(self.objs[bi][1], overwrite=True)
@@ -379,12 +393,12 @@ def shard_setup(ctx):
     """choose this shard's pool and compute the fresh-process table for it"""
     if 'base' in _state:
         return
-    k = (ctx.shard + ctx.seed) % len(shipped.LIBS)
-    libs = [shipped.LIBS[(k + j * 4) % len(shipped.LIBS)] for j in range(3)]
-    # two libraries sharing one scheme file make "operation on another library sharing its scheme" likely
-    if 'GRWSurface2018' in libs and 'GRWAqueous2018' not in libs:
-        libs[-1] = 'GRWAqueous2018'
-    libs = list(dict.fromkeys(libs))
+    # three libraries per shard: two that define many of the same groups with different data (so that one can overwrite what
+    # the other gave to a third), and one from the other family
+    triples = [('GRWSurface2018', 'GRWAqueous2018', 'BensonGA'), ('BensonGA', 'PPY', 'SalciccioliGA2012'), ('SalciccioliGA2012', 'GuSolventGA2017Vac', 'PPY'),
+               ('GuSolventGA2017Aq', 'GuSolventGA2017Vac', 'XieGA2022'), ('PtSurface2023', 'GRWSurface2018', 'BensonGA'), ('XieGA2022', 'SalciccioliGA2012', 'PPY'),
+               ('GRWAqueous2018', 'PtSurface2023', 'GuSolventGA2017Aq'), ('PPY', 'BensonGA', 'GRWSurface2018')]
+    libs = list(triples[(ctx.shard + ctx.seed) % len(triples)])
     pools = {L: [POOLS[L][(ctx.seed + ctx.shard + 3 * j) % len(POOLS[L])] for j in range(6)] for L in libs}
     pools = {L: list(dict.fromkeys(v)) for L, v in pools.items()}
     with ThreadPoolExecutor(max_workers=3) as ex:
@@ -408,41 +422,34 @@ def run_histories(ctx, fam, n):
             self.sim.load(a)
             self.sim.load(b)
 
-        @rule(li=st.integers(0, 8))
-        def load(self, li):
-            self.sim.load(li)
-
-        @rule(oi=st.integers(0, 8), mi=st.integers(0, 8))
-        def decompose(self, oi, mi):
-            self.sim.decompose(oi, mi)
-
-        @rule(oi=st.integers(0, 8), mi=st.integers(0, 8))
-        def decompose_other_spelling(self, oi, mi):
-            self.sim.decompose(oi, mi, alt=True)
-
-        @rule(ei=st.integers(0, 30), ti=st.integers(0, 2), ui=st.integers(0, 5), which=st.integers(0, 3))
-        def evaluate_dim(self, ei, ti, ui, which):
-            self.sim.evaluate_dim(ei, ti, ui, which)
-
-        @rule(ei=st.integers(0, 30), ti=st.integers(0, 2), xi=st.integers(0, 2))
-        def evaluate_se(self, ei, ti, xi):
-            self.sim.evaluate_se(ei, ti, xi)
-
-        @rule(di=st.integers(0, 30))
-        def estimate(self, di):
-            self.sim.estimate(di)
-
-        @rule(ei=st.integers(0, 30), ti=st.integers(0, 2), xi=st.integers(0, 3), el=st.booleans())
-        def evaluate(self, ei, ti, xi, el):
-            self.sim.evaluate(ei, ti, xi, el)
-
-        @rule(ai=st.integers(0, 8), bi=st.integers(0, 8))
-        def merge(self, ai, bi):
-            self.sim.merge(ai, bi)
-
-        @rule(ai=st.integers(0, 8), bi=st.integers(0, 8))
-        def cross_merge(self, ai, bi):
-            self.sim.cross_merge(ai, bi)
+        # ONE rule with a weighted choice of operation: Hypothesis draws rules uniformly, so separate rules would make the mix of
+        # operations depend on how many kinds there are (merges would crowd out decompositions and evaluations)
+        @rule(op=st.sampled_from(['decompose'] * 6 + ['estimate'] * 5 + ['evaluate'] * 6 + ['load'] * 2 + ['merge', 'cross_merge', 'cross_merge_twice']),
+              a=st.integers(0, 30), b=st.integers(0, 8), c=st.integers(0, 8), ti=st.integers(0, 2), xi=st.integers(0, 3), flag=st.booleans(),
+              mode=st.sampled_from([0, 0, 1, 2]), ui=st.integers(0, 5))
+        def step(self, op, a, b, c, ti, xi, flag, mode, ui):
+            sim = self.sim
+            if op == 'load':
+                sim.load(a, flag)
+            elif op == 'decompose':
+                sim.decompose(a, b, alt=flag and xi == 0)
+            elif op == 'estimate':
+                sim.estimate(a)
+            elif op == 'evaluate':
+                if mode == 0:
+                    sim.evaluate(a, ti, xi, flag)
+                elif mode == 1:
+                    sim.evaluate_dim(a, ti, ui, xi)
+                else:
+                    sim.evaluate_se(a, ti, xi)
+            elif op == 'merge':
+                sim.merge(b, c)
+            elif op == 'cross_merge':
+                sim.cross_merge(b, c)
+            else:
+                # target <- donor 1, then target <- donor 2 (overwriting): what donor 1 gave must not be written through to donor 1
+                sim.cross_merge(a % 9, b)
+                sim.cross_merge(a % 9, c)
 
         @invariant()
         def libraries_unaltered(self):
@@ -470,6 +477,8 @@ def replay(ctx, case):
         op = step[0]
         if op == 'load':
             sim.load(step[1])
+        elif op == 'assemble':
+            sim.load(step[1], assembled=True)
         elif op == 'decompose':
             sim.decompose(step[1], step[2])
         elif op == 'decompose_alt':
